@@ -52,6 +52,7 @@ int vp_spur[VP_MAXT];            /* remaining spurious wake-ups per thread */
 int vp_wake_reason[VP_MAXT];     /* 0 notified, 1 spurious, 2 time-out */
 unsigned vp_blockcount_[VP_MAXT]; /* how often a thread ended a context blocked (C14 uses it) */
 int vp_plain_blocked;
+unsigned vp_ublockcount_[VP_MAXT]; /* ... blocked in a primitive that has no time-out */
 unsigned vp_cvwaits_[VP_MAXT];    /* condition-variable waits begun per thread */            /* a blocking primitive was not enabled inside sequential / atomic code */
 
 #ifndef VP_STEP
@@ -67,11 +68,13 @@ static inline void vp_intent_shared(int32_t on) { vp_intent_[vp_cur] = on; }
 static inline void vp_intent_excl(int32_t d) { vp_excl_intents += d; }
 static inline void vp_blocked(int t, int kind, char* a, char* b) {
   vp_blk_kind[t] = kind; vp_blk_a[t] = a; vp_blk_b[t] = b; vp_blockcount_[t]++;
+  if (kind != VP_B_TIMED && kind != VP_B_CVT) vp_ublockcount_[t]++;
   /* C02: with a shared-capable lock a reader is never blocked merely by other readers */
   if ((kind == VP_B_WR || kind == VP_B_RD || kind == VP_B_MUTEX) && vp_intent_[t] && vp_excl_intents == 0)
     VP_CHECK(0, "shared acquisition blocks although no writer holds or wants the lock (reader blocked merely by readers)");
 }
 static inline unsigned vp_blockcount(void) { return vp_blockcount_[vp_cur]; }
+static inline unsigned vp_ublockcount(void) { return vp_ublockcount_[vp_cur]; }
 static inline unsigned vp_cvwaits(void) { return vp_cvwaits_[vp_cur]; }
 static inline void vp_plain_block(void) {
   /* sequential code (setup, final, indirect-call targets, sequential harnesses) reached a blocking primitive
@@ -145,7 +148,7 @@ static inline int vp_mutex_timedlock(char* m, char* ts) { return vp_mutex_clockl
 /* ------------------------------------------------------------------ rwlock (word0 = writer+1, word1 = reader bitmask) */
 static inline int vp_rw_can_read(char* l) { return ((int*)l)[0] == 0; }
 static inline int vp_rw_can_write(char* l) { return ((int*)l)[0] == 0 && ((int*)l)[1] == 0; }
-static inline int32_t vp_rw_state_of(char* l) { return (((int*)l)[0] != 0 ? 0x100 : 0) | ((int*)l)[1]; }
+static inline int32_t vp_rw_state_of(char* l) { return (((int*)l)[0] << 8) | ((int*)l)[1]; }   /* (writer id + 1) << 8 | reader mask */
 static inline int vp_rw_rdlock(char* l) {
   VP_CHECK((((int*)l)[1] & (1 << vp_cur)) == 0, "rwlock: recursive read lock");
   ((int*)l)[1] |= (1 << vp_cur); return 0;
